@@ -2206,6 +2206,29 @@ func ruleP19(r *Run) {
 				if _, isStmt := tparents[c].(*ast.ExprStmt); !isStmt {
 					used = true
 				}
+				// ... and what it reports ends the call: `if err != nil { return ... }` on the variable it was assigned to
+				if as, isAs := tparents[c].(*ast.AssignStmt); isAs && len(as.Lhs) >= 1 {
+					if o := identObj(info, as.Lhs[len(as.Lhs)-1]); o != nil {
+						returned := false
+						ast.Inspect(tfd.Body, func(q ast.Node) bool {
+							ifs, isIf := q.(*ast.IfStmt)
+							if !isIf || ifs.End() < c.Pos() {
+								return true
+							}
+							if be, isBin := ast.Unparen(ifs.Cond).(*ast.BinaryExpr); isBin && be.Op == token.NEQ && identObj(info, be.X) == o {
+								if id, isId := ast.Unparen(be.Y).(*ast.Ident); isId && id.Name == "nil" && len(ifs.Body.List) > 0 {
+									if _, isRet := ifs.Body.List[len(ifs.Body.List)-1].(*ast.ReturnStmt); isRet {
+										returned = true
+									}
+								}
+							}
+							return true
+						})
+						if !returned {
+							used = false
+						}
+					}
+				}
 			}
 			return true
 		})
